@@ -22,3 +22,9 @@ KFN unsigned long k_csv_field_ctor(const char* s, unsigned long n, unsigned styl
     for (unsigned long i = 0; i < w && i < cap; ++i) out[i] = str[i];
     return w;
 }
+// option -> member plumbing alone: the REAL constructor from real csv_options, then the quoting members are read back (no field is written)
+KFN void k_csv_plumb(unsigned style, char delim, char quote, char esc, char sub, unsigned char* out5) {
+    csv::csv_options o; o.quote_style((csv::quote_style_kind)style).field_delimiter(delim).quote_char(quote).quote_escape_char(esc).subfield_delimiter(sub);
+    RAWCTOR(enc_t, raw); enc_t* e = new (raw) enc_t(fsink{(char*)out5, 0, 0}, o);
+    out5[0] = (unsigned char)e->quote_style_; out5[1] = (unsigned char)e->field_delimiter_; out5[2] = (unsigned char)e->quote_char_; out5[3] = (unsigned char)e->quote_escape_char_; out5[4] = (unsigned char)e->subfield_delimiter_;
+}
